@@ -199,6 +199,9 @@ pub struct Ctx {
     pub extra: Map<String, Value>,
     /// When replaying, only this signature / case is of interest.
     pub replay: Option<Value>,
+    /// A shadow run: the same workload (another seed, an eighth of the parallel cases, two worker
+    /// threads) executed beside the main run in the same process; only its violations are kept.
+    pub shadow: bool,
 }
 
 pub fn verif_root() -> PathBuf {
@@ -266,6 +269,7 @@ impl Ctx {
             floor_evaluations: 1,
             extra: Map::new(),
             replay: None,
+            shadow: false,
         }
     }
 
@@ -552,12 +556,13 @@ where
     F: Fn(u64, &mut Obs) + Sync,
 {
     use std::sync::atomic::{AtomicU64, Ordering};
-    let n = threads(ctx.tier);
+    let n = if ctx.shadow { 2 } else { threads(ctx.tier) };
     // lanes that slow execution down by one to four orders of magnitude shrink the workload
     let total = match std::env::var("VERIF_CASES_DIV").ok().and_then(|v| v.parse::<u64>().ok()) {
         Some(d) if d > 1 => (total / d).max(1),
         _ => total,
     };
+    let total = if ctx.shadow { (total / 8).max(1) } else { total };
     let next = AtomicU64::new(0);
     // C04 and C06 measure per-thread allocation peaks and CPU time around their own calls
     let no_poison = matches!(ctx.prop.as_str(), "C04" | "C06") || std::env::var("VERIF_NO_POISON").is_ok();
@@ -586,7 +591,22 @@ where
                             obs.count("cases_preceded_by_failing_calls_on_the_same_thread", 1);
                         }
                         let overruns_before = crate::mon::guard_overruns_on_this_thread();
-                        f(i, &mut obs);
+                        // A panic that leaves the case function did not come from a call under a
+                        // dedicated monitor.  Raised inside the harness's own sources it is a harness
+                        // fault (inconclusive); raised anywhere else - the repository, a crate it
+                        // uses, the standard library underneath one of its calls - it is a library
+                        // call that panicked on a case the harness considers well-formed.
+                        if let Err(p) = crate::mon::catch_escaped(|| f(i, &mut obs)) {
+                            if p.file.contains("harness/src/") || p.file.contains("lanes/miri/") {
+                                obs.inconclusive(format!("a harness worker thread panicked outside a monitored call ({}:{} {})", p.file, p.line, p.message));
+                            } else {
+                                obs.violation(
+                                    format!("a library call made while the case was judged panicked: {}", p.signature()),
+                                    format!("case {}: {} at {}:{}", i, p.message, p.file, p.line),
+                                    serde_json::json!({"case_index": i, "panic": p.message, "at": format!("{}:{}", p.file, p.line)}),
+                                );
+                            }
+                        }
                         let overruns = crate::mon::guard_overruns_on_this_thread() - overruns_before;
                         if overruns > 0 {
                             obs.violation(
@@ -604,7 +624,17 @@ where
                         if !no_echo && i % 8 == 5 {
                             if let Some(p) = previous {
                                 let mut again = Obs::new();
-                                f(p, &mut again);
+                                if let Err(pn) = crate::mon::catch_escaped(|| f(p, &mut again)) {
+                                    if pn.file.contains("harness/src/") {
+                                        again.inconclusive(format!("a harness worker thread panicked outside a monitored call ({}:{} {})", pn.file, pn.line, pn.message));
+                                    } else {
+                                        again.violation(
+                                            format!("a library call made while the case was judged panicked: {}", pn.signature()),
+                                            format!("case {} (run a second time): {} at {}:{}", p, pn.message, pn.file, pn.line),
+                                            serde_json::json!({"case_index": p, "panic": pn.message, "at": format!("{}:{}", pn.file, pn.line)}),
+                                        );
+                                    }
+                                }
                                 obs.count("cases_run_a_second_time_after_another_case_on_the_same_thread", 1);
                                 if again.violation_count > 0 && obs.violation_count == 0 {
                                     obs.count("violations_seen_only_on_a_second_run", again.violation_count);
